@@ -235,9 +235,9 @@ func (x *sessExec) Check(res *vsched.Result) *eng.Violation {
 func sessScenarios(r *eng.Run) []*vexp.Scenario {
 	scs := []*sessScript{
 		{name: "sess_a_have_close", keys: []int{a}, haves: true, closeSes: true},
-		{name: "sess_a_have_reqcancel", keys: []int{a}, haves: true, closeSes: false},
+		{name: "sess_a_have_reqcancel", keys: []int{a}, haves: true, closeSes: false, deltaT: -1},
 		{name: "sess_a_sending_close", keys: []int{a}, haves: true, closeSes: true, gate: true},
-		{name: "sess_a_sending_reqcancel", keys: []int{a}, haves: true, closeSes: false, gate: true},
+		{name: "sess_a_sending_reqcancel", keys: []int{a}, haves: true, closeSes: false, gate: true, deltaT: -1},
 		{name: "sess_ab_close", keys: []int{a, b}, haves: false, closeSes: true, delta: -1, deltaT: -1},
 	}
 	var out []*vexp.Scenario
